@@ -367,7 +367,12 @@ class _GitFile(IO[bytes]):
         """
         if self._closed:
             return
-        self._file.close()
+        try:
+            self._file.close()
+        except OSError:
+            # Flushing buffered data can fail (again); it is being
+            # discarded anyway, and the lock must still be released.
+            pass
         try:
             os.remove(self._lockfilename)
             self._closed = True
@@ -390,14 +395,14 @@ class _GitFile(IO[bytes]):
         """
         if self._closed:
             return
-        self._file.flush()
-        if self._fsync:
-            os.fsync(self._file.fileno())
-        self._file.close()
-        # Adjust before the rename, so the file is never visible at the
-        # final path with the wrong permissions.
-        adjust_shared_perm(self._lockfilename, self._shared_perm)
         try:
+            self._file.flush()
+            if self._fsync:
+                os.fsync(self._file.fileno())
+            self._file.close()
+            # Adjust before the rename, so the file is never visible at the
+            # final path with the wrong permissions.
+            adjust_shared_perm(self._lockfilename, self._shared_perm)
             if getattr(os, "replace", None) is not None:
                 os.replace(self._lockfilename, self._filename)
             else:
